@@ -53,3 +53,149 @@ package interpreter
 //@   loop 1 invariant forall(k, 0, i, !isPar(pathParts[k]) ==> pathParts[k] == actualParts[k])
 //@   loop 1 invariant forall(k, 0, i, isPar(pathParts[k]) ==> has(params, libcall(strings.TrimPrefix, pathParts[k], ":")))
 //@   loop 1 invariant forall(k, 0, i, isPar(pathParts[k]) && forall(j, k + 1, i, isPar(pathParts[j]) ==> libcall(strings.TrimPrefix, pathParts[j], ":") != libcall(strings.TrimPrefix, pathParts[k], ":")) ==> params[libcall(strings.TrimPrefix, pathParts[k], ":")] == actualParts[k])
+
+// ---- operators (C01, C04): the interpreter against the language oracle (contracts/lang.spec) ----
+//@ spec func kindI(x interface{}) int = ite(x == nil, 0, ite(typeis(x, int64), 1, ite(typeis(x, float64), 2, ite(typeis(x, string), 3, ite(typeis(x, bool), 4, ite(typeis(x, []interface{}), 5, ite(typeis(x, map[string]interface{}), 6, 7)))))))
+//@ spec func toFI(x interface{}) float64 = ite(typeis(x, int64), float64(x.(int64)), x.(float64))
+
+//@ func CoerceNumeric
+//@   strict
+//@   modifies nothing
+//@   ensures result2 == ((kindI(left) == 1 && kindI(right) == 2) || (kindI(left) == 2 && kindI(right) == 1))
+//@   ensures kindI(left) == 1 && kindI(right) == 2 ==> typeis(result, float64) && result.(float64) == float64(left.(int64)) && result1 == right
+//@   ensures kindI(left) == 2 && kindI(right) == 1 ==> typeis(result1, float64) && result1.(float64) == float64(right.(int64)) && result == left
+//@   ensures !result2 ==> result == left && result1 == right
+
+//@ func (*Interpreter).evaluateAdd
+//@   strict
+//@   modifies nothing
+//@   ensures (err == nil) == (addKind(kindI(left), kindI(right)) != -1)
+//@   ensures err == nil ==> kindI(result) == addKind(kindI(left), kindI(right))
+//@   ensures err == nil && kindI(result) == 1 ==> result.(int64) == intAdd(left.(int64), right.(int64))
+//@   ensures err == nil && kindI(result) == 2 ==> result.(float64) == toFI(left) + toFI(right)
+//@   ensures err == nil && kindI(result) == 3 ==> result.(string) == left.(string) + right.(string)
+//@   ensures err == nil && kindI(result) == 5 ==> len(result.([]interface{})) == len(left.([]interface{})) + len(right.([]interface{}))
+//@ func (*Interpreter).evaluateSub
+//@   strict
+//@   modifies nothing
+//@   ensures (err == nil) == (numKind(kindI(left), kindI(right)) != -1)
+//@   ensures err == nil ==> kindI(result) == numKind(kindI(left), kindI(right))
+//@   ensures err == nil && kindI(result) == 1 ==> result.(int64) == intSub(left.(int64), right.(int64))
+//@   ensures err == nil && kindI(result) == 2 ==> result.(float64) == toFI(left) - toFI(right)
+//@ func (*Interpreter).evaluateMul
+//@   strict
+//@   modifies nothing
+//@   ensures (err == nil) == (numKind(kindI(left), kindI(right)) != -1)
+//@   ensures err == nil ==> kindI(result) == numKind(kindI(left), kindI(right))
+//@   ensures err == nil && kindI(result) == 1 ==> result.(int64) == intMul(left.(int64), right.(int64))
+//@   ensures err == nil && kindI(result) == 2 ==> result.(float64) == toFI(left) * toFI(right)
+//@ func (*Interpreter).evaluateDiv
+//@   strict
+//@   modifies nothing
+//@   ensures (err == nil) == (numKind(kindI(left), kindI(right)) == 1 && right.(int64) != 0 || numKind(kindI(left), kindI(right)) == 2 && !feq(toFI(right), 0.0))
+//@   ensures err == nil ==> kindI(result) == numKind(kindI(left), kindI(right))
+//@   ensures err == nil && kindI(result) == 1 ==> result.(int64) == intDiv(left.(int64), right.(int64))
+//@   ensures err == nil && kindI(result) == 2 ==> result.(float64) == toFI(left) / toFI(right)
+//@ func (*Interpreter).evaluateMod
+//@   strict
+//@   modifies nothing
+//@   ensures (err == nil) == (numKind(kindI(left), kindI(right)) == 1 && right.(int64) != 0 || numKind(kindI(left), kindI(right)) == 2 && !feq(toFI(right), 0.0))
+//@   ensures err == nil ==> kindI(result) == numKind(kindI(left), kindI(right))
+//@   ensures err == nil && kindI(result) == 1 ==> result.(int64) == intMod(left.(int64), right.(int64))
+//@   ensures err == nil && kindI(result) == 2 ==> result.(float64) == libcall(math.Mod, toFI(left), toFI(right))
+
+// comparisons: two numbers (int promoted to float when mixed) or two strings; anything else is a type error
+//@ func (*Interpreter).evaluateLt
+//@   strict
+//@   modifies nothing
+//@   ensures (err == nil) == (cmpKind(kindI(left), kindI(right)) != -1)
+//@   ensures err == nil ==> typeis(result, bool)
+//@   ensures err == nil && kindI(left) == 1 && kindI(right) == 1 ==> result.(bool) == (left.(int64) < right.(int64))
+//@   ensures err == nil && isNum(kindI(left)) && !(kindI(left) == 1 && kindI(right) == 1) ==> result.(bool) == (toFI(left) < toFI(right))
+//@   ensures err == nil && kindI(left) == 3 ==> result.(bool) == strlt(left.(string), right.(string))
+//@ func (*Interpreter).evaluateLe
+//@   strict
+//@   modifies nothing
+//@   ensures (err == nil) == (cmpKind(kindI(left), kindI(right)) != -1)
+//@   ensures err == nil ==> typeis(result, bool)
+//@   ensures err == nil && kindI(left) == 1 && kindI(right) == 1 ==> result.(bool) == (left.(int64) <= right.(int64))
+//@   ensures err == nil && isNum(kindI(left)) && !(kindI(left) == 1 && kindI(right) == 1) ==> result.(bool) == (toFI(left) <= toFI(right))
+//@   ensures err == nil && kindI(left) == 3 ==> result.(bool) == !strlt(right.(string), left.(string))
+//@ func (*Interpreter).evaluateGt
+//@   strict
+//@   modifies nothing
+//@   ensures (err == nil) == (cmpKind(kindI(left), kindI(right)) != -1)
+//@   ensures err == nil ==> typeis(result, bool)
+//@   ensures err == nil && kindI(left) == 1 && kindI(right) == 1 ==> result.(bool) == (left.(int64) > right.(int64))
+//@   ensures err == nil && isNum(kindI(left)) && !(kindI(left) == 1 && kindI(right) == 1) ==> result.(bool) == (toFI(left) > toFI(right))
+//@   ensures err == nil && kindI(left) == 3 ==> result.(bool) == strlt(right.(string), left.(string))
+//@ func (*Interpreter).evaluateGe
+//@   strict
+//@   modifies nothing
+//@   ensures (err == nil) == (cmpKind(kindI(left), kindI(right)) != -1)
+//@   ensures err == nil ==> typeis(result, bool)
+//@   ensures err == nil && kindI(left) == 1 && kindI(right) == 1 ==> result.(bool) == (left.(int64) >= right.(int64))
+//@   ensures err == nil && isNum(kindI(left)) && !(kindI(left) == 1 && kindI(right) == 1) ==> result.(bool) == (toFI(left) >= toFI(right))
+//@   ensures err == nil && kindI(left) == 3 ==> result.(bool) == !strlt(left.(string), right.(string))
+
+// equality never fails: mixed int/float compare as floats, values of the same scalar kind by value,
+// null equals only null, arrays and objects (and values of different kinds) are not equal
+//@ spec func eqI(l interface{}, r interface{}) bool = eqVal(kindI(l), l.(int64), toFI(l), l.(string), l.(bool), kindI(r), r.(int64), toFI(r), r.(string), r.(bool))
+//@ func (*Interpreter).evaluateEq
+//@   strict
+//@   modifies nothing
+//@   ensures err == nil && typeis(result, bool)
+//@   ensures kindI(left) != 7 && kindI(right) != 7 ==> result.(bool) == eqI(left, right)
+//@ func (*Interpreter).evaluateNe
+//@   strict
+//@   modifies nothing
+//@   ensures err == nil && typeis(result, bool)
+//@   ensures kindI(left) != 7 && kindI(right) != 7 ==> result.(bool) == !eqI(left, right)
+//@ func comparableValue
+//@   trusted
+//@   modifies nothing
+//@   ensures result == comparable(v)
+
+// ---- dispatch: every operator node reaches the operator function of its own name, operands in source order ----
+//@ func (*Interpreter).EvaluateExpression
+//@   trusted
+
+//@ func (*Interpreter).evaluateUnaryOp
+//@   strict
+//@   checkif result1 == nil ==> (expr.Op == Not && kindI(right) == 4) || (expr.Op == Neg && isNum(kindI(right)))
+//@   checkif local(err) == nil && ((expr.Op == Not && kindI(right) == 4) || (expr.Op == Neg && isNum(kindI(right)))) ==> result1 == nil
+//@   checkif result1 == nil && expr.Op == Not ==> typeis(result, bool) && result.(bool) == !right.(bool)
+//@   checkif result1 == nil && expr.Op == Neg && kindI(right) == 1 ==> typeis(result, int64) && result.(int64) == intNeg(right.(int64))
+//@   checkif result1 == nil && expr.Op == Neg && kindI(right) == 2 ==> typeis(result, float64) && result.(float64) == fneg(right.(float64))
+
+//@ func (*Interpreter).evaluateBinaryOp
+//@   strict
+//@   callpre (*interpreter.Interpreter).evaluateAdd expr.Op == Add && arg1 == left && arg2 == right
+//@   callpre (*interpreter.Interpreter).evaluateSub expr.Op == Sub && arg1 == left && arg2 == right
+//@   callpre (*interpreter.Interpreter).evaluateMul expr.Op == Mul && arg1 == left && arg2 == right
+//@   callpre (*interpreter.Interpreter).evaluateDiv expr.Op == Div && arg1 == left && arg2 == right
+//@   callpre (*interpreter.Interpreter).evaluateMod expr.Op == Mod && arg1 == left && arg2 == right
+//@   callpre (*interpreter.Interpreter).evaluateEq expr.Op == Eq && arg1 == left && arg2 == right
+//@   callpre (*interpreter.Interpreter).evaluateNe expr.Op == Ne && arg1 == left && arg2 == right
+//@   callpre (*interpreter.Interpreter).evaluateLt expr.Op == Lt && arg1 == left && arg2 == right
+//@   callpre (*interpreter.Interpreter).evaluateLe expr.Op == Le && arg1 == left && arg2 == right
+//@   callpre (*interpreter.Interpreter).evaluateGt expr.Op == Gt && arg1 == left && arg2 == right
+//@   callpre (*interpreter.Interpreter).evaluateGe expr.Op == Ge && arg1 == left && arg2 == right
+//@   checkif result1 == nil && expr.Op == Sub && kindI(left) == 1 && kindI(right) == 1 ==> result.(int64) == intSub(left.(int64), right.(int64))
+//@   checkif result1 == nil && expr.Op == Div && kindI(left) == 1 && kindI(right) == 1 ==> result.(int64) == intDiv(left.(int64), right.(int64))
+//@   checkif result1 == nil && expr.Op == Mod && kindI(left) == 1 && kindI(right) == 1 ==> result.(int64) == intMod(left.(int64), right.(int64))
+//@   checkif result1 == nil && expr.Op == Lt && kindI(left) == 1 && kindI(right) == 1 ==> result.(bool) == (left.(int64) < right.(int64))
+//@   checkif result1 == nil && expr.Op == Ge && kindI(left) == 1 && kindI(right) == 1 ==> result.(bool) == (left.(int64) >= right.(int64))
+//@   checkif result1 == nil && expr.Op == Add && kindI(left) == 3 ==> kindI(right) == 3 && result.(string) == left.(string) + right.(string)
+// short-circuit logic: the left operand decides alone when it can, and both operands must be booleans when evaluated
+//@   checkif result1 == nil && expr.Op == And ==> kindI(left) == 4 && typeis(result, bool) && (!left.(bool) ==> !result.(bool))
+//@   checkif result1 == nil && expr.Op == Or ==> kindI(left) == 4 && typeis(result, bool) && (left.(bool) ==> result.(bool))
+//@   checkif result1 == nil && (expr.Op == And || expr.Op == Or) && kindI(left) == 4 && left.(bool) == (expr.Op == And) ==> kindI(right) == 4 && result.(bool) == right.(bool)
+
+// ---- loop bound (C04): a while statement performs at most maxWhileIterations iterations of its own
+//@ func (*Interpreter).executeStatements
+//@   trusted
+//@ func (*Interpreter).executeWhile
+//@   mathint
+//@   loop 1 invariant 0 <= iterations && iterations <= 1000000
+//@   loop 1 decreases 1000000 - iterations
